@@ -203,7 +203,7 @@ def main():
                      'kind_free_text': 'Coq 8.16 development: executable Gallina model + theorems; extracted to OCaml for the correspondence'}],
         'checks': checks,
         'not_applicable': na,
-        'notes': 'see DESIGN.md; known findings in known_findings.json',
+        'notes': 'see DESIGN.md (section 0 is the as-built description); known findings in known_findings.json (two are repaired in /repo by fix: commits b36fa04 and b4bd6b4); seeded changes and what reports them in seeded/*/meta.json',
     }
     with open(os.path.join(V, 'MANIFEST.json'), 'w') as f:
         json.dump(man, f, indent=1)
